@@ -593,7 +593,11 @@ func (env *specEnv) call(n *SCall) (TV, error) {
 			return TV{}, fmt.Errorf("%s body is not boolean", n.Fn)
 		}
 		if n.Fn == "forall" {
-			return TV{fmt.Sprintf("(forall ((%s Int)) %s)", bv, sImp(rng, body.T)), "Bool", nil}, nil
+			inner := sImp(rng, body.T)
+			if pats := selectPatterns(inner, bv); len(pats) > 0 {
+				return TV{fmt.Sprintf("(forall ((%s Int)) (! %s :pattern (%s)))", bv, inner, pats[0]), "Bool", nil}, nil
+			}
+			return TV{fmt.Sprintf("(forall ((%s Int)) %s)", bv, inner), "Bool", nil}, nil
 		}
 		return TV{fmt.Sprintf("(exists ((%s Int)) %s)", bv, sAnd(rng, body.T)), "Bool", nil}, nil
 	case "has":
@@ -638,6 +642,22 @@ func (env *specEnv) call(n *SCall) (TV, error) {
 			return TV{}, err
 		}
 		return TV{fmt.Sprintf("(= (i-tag %s) %d)", a.T, S.Tag(T)), "Bool", nil}, nil
+	case "deref":
+		a, err := env.Term(n.Args[0])
+		if err != nil {
+			return TV{}, err
+		}
+		if a.Ty == nil {
+			return TV{}, fmt.Errorf("deref of untyped term")
+		}
+		pt, ok := a.Ty.Underlying().(*types.Pointer)
+		if !ok {
+			return TV{}, fmt.Errorf("deref of non-pointer")
+		}
+		if _, isStruct := pt.Elem().Underlying().(*types.Struct); isStruct {
+			return TV{}, fmt.Errorf("deref of struct pointer: use field selectors")
+		}
+		return TV{fmt.Sprintf("(select %s %s)", env.h(S.DerefKey(pt.Elem())), a.T), S.SortOf(pt.Elem()), pt.Elem()}, nil
 	case "ite":
 		return env.Term(&SCond{n.Args[0], n.Args[1], n.Args[2]})
 	case "held":
@@ -745,4 +765,29 @@ func (env *specEnv) view2(tv TV, T types.Type) TV {
 		return env.view(tv)
 	}
 	return tv
+}
+
+// selectPatterns returns the innermost "(select A I)" subterms of t whose index I mentions bv and whose array A does not
+// (usable as E-matching triggers).
+func selectPatterns(t, bv string) []string {
+	var out []string
+	seen := map[string]bool{}
+	var walk func(x string)
+	walk = func(x string) {
+		if len(x) == 0 || x[0] != '(' {
+			return
+		}
+		parts := sexprParts(x)
+		if len(parts) == 3 && parts[0] == "select" && strings.Contains(parts[2], bv) && !strings.Contains(parts[1], bv) {
+			if !seen[x] && !strings.Contains(parts[2], "(select") {
+				seen[x] = true
+				out = append(out, x)
+			}
+		}
+		for _, p := range parts[1:] {
+			walk(p)
+		}
+	}
+	walk(t)
+	return out
 }
